@@ -323,12 +323,18 @@ def phase_notify(args):
                     loop.release_gai(0)
                 loop.settle()
             else:
-                eg.notify_once(list(eg.values.keys()))
+                # most rounds name every event once; some name an event twice or only a few (an application flushing a
+                # list of changed events): every named item is a notification with an id of its own
+                evs = {5: [1, 2, 1], 9: [2, 2], 13: [3], 14: [8, 7, 8, 7, 8]}.get(r % 16, list(eg.values.keys()))
+                eg.notify_once(evs)
             loop.settle()
             for _, _, data, addr in s.transport.sent:
                 msgs, err, _ = refcodec.dec_someip_all(data)
                 if err:
                     viols.append(("notify-format", "undecodable", f"round {r}: {err}", r))
+                if r not in joins and [m["method"] & 0x7FFF for m in msgs] != evs:
+                    viols.append(("notify-sequence", "items-of-a-round", f"round {r} dest {addr}: events on the wire "
+                                  f"{[m['method'] & 0x7FFF for m in msgs]}, named {evs}", r))
                 for m in msgs:
                     want = counters.get(addr, 0) % 0xFFFF + 1
                     counters[addr] = want
